@@ -129,6 +129,8 @@ def check(run):
         'conditions, identity on consistent masks and alignment-plan coverage are NOT decided by this technique.')
     run.trusted = ['assignments returned by _mapping_from_score_matrix are permutations (C14)']
     c14.check_calculate_mappings(run, A)
+    from ..opt import check_block_partitions
+    check_block_partitions(run, A, ('pb_bss.permutation_alignment',))
     # DHTV works on a copy of the mask (features), the centroid is computed from the current features of the segment
     q = P + 'DHTVPermutationAlignment.calculate_mapping'
     fn = A.prog.func(q)
